@@ -88,6 +88,7 @@ class V1World:
         df = pd.DataFrame({k: pd.Series([v], index=[TS], dtype=object) for k, v in row.items()})
         self.market = GmxMarket(MarketInfo("gmx", MarketTypeEnum.gmx_v1), tokens=[self.tok[n] for n in self.token_names], data=df)
         self.broker = Broker()
+        self.broker.quote_token = self.market.quote_token      # USD
         self.acts = []
         self.broker._record_action_callback = self.acts.append
         self.broker.add_market(self.market)
@@ -345,16 +346,12 @@ def v1_fee_inputs(w: V1World, tok: str):
 
 
 def branch_edge(initial, delta, weight, supply, total, increment) -> bool:
-    """the Vault rule is discontinuous where |next - target| = |initial - target|; the code (fractional target) and the
-    contract (floored target) can land on different sides only if 2*(next - T) and 2*(T - initial) differ by < 2 units"""
+    """the Vault rule is discontinuous where |next - target| = |initial - target|.  The code (fractional target T) and the contract
+    (floored target) can take different branches only if next + initial - 2*floor(T) is 0 or 1 (theorem C17_v1_fee_branch_agrees_off_mirror)"""
     if total == 0 or supply == 0:
         return False
     nxt = initial + delta if increment else max(0, initial - delta)
-    T = F(weight * supply, total)
-    for t in (T, F(floor_frac(T))):
-        if abs(abs(nxt - t) - abs(initial - t)) <= 2:
-            return True
-    return False
+    return nxt + initial - 2 * (weight * supply // total) in (0, 1)
 
 
 # ============================================================================================== v2
@@ -380,6 +377,7 @@ class V2World:
         for k, v in self.cfg.items():
             setattr(self.market.pool_config, k, v)
         self.broker = Broker()
+        self.broker.quote_token = self.market.quote_token      # USD
         self.acts = []
         self.broker._record_action_callback = self.acts.append
         self.broker.add_market(self.market)
